@@ -212,6 +212,8 @@ theorem getBlob_at (pre b post : Bytes) (hl : b.length < 2147483648) :
   rw [hd, getInt_at pre _ b.length (by omega)]
   simp only [ok_bind]
   rw [toInt32_nat _ hl]
+  have hnn : ¬ ((b.length : Int) < 0) := by omega
+  simp only [hnn, if_false]
   have hfrom : pyFrom (pre ++ be32 b.length ++ (b ++ zeros (blobPad b.length) ++ post)) (pre.length : Int)
       = be32 b.length ++ (b ++ zeros (blobPad b.length) ++ post) := by
     rw [List.append_assoc, pyFrom_at]
